@@ -56,7 +56,7 @@ def shards(tier, seed):
     return out
 
 
-HISTS = ('copy_resized', 'copy_resized64', 'view_resized', 'resized_back', 'used')
+HISTS = ('copy_resized', 'copy_resized64', 'view_resized', 'resized_back', 'used', 'resigned_setitem', 'resigned_dtype_setitem')
 
 
 def judge_array(acc, fmt, rounding, ds, part, shift_inv=True, hist=None):
@@ -91,7 +91,20 @@ def judge_array(acc, fmt, rounding, ds, part, shift_inv=True, hist=None):
                 x.resize(n_word=fmt.n_word)
             else:
                 warm(x)
-            x.set_val(np.array([dy_float(d) for d in ds], dtype=np.float64))
+            if hist.startswith('resigned') and len(ds) > 48:
+                ds = ds[:: len(ds) // 48 + 1] + [ds[-1]]
+                exp = [quantize(d, fmt, rounding, 'wrap') for d in ds]
+            if hist.startswith('resigned'):
+                # born with the OTHER signedness, re-signed by resize (by keyword / by dtype string), then written element by element
+                x = mk(np.zeros(len(ds)), Fmt(not fmt.signed, fmt.n_word, fmt.n_frac), rounding, 'wrap')
+                if hist == 'resigned_setitem':
+                    x.resize(signed=fmt.signed)
+                else:
+                    x.resize(dtype=fmt.dtype)
+                for i, d in enumerate(ds):
+                    x[i] = dy_float(d)
+            else:
+                x.set_val(np.array([dy_float(d) for d in ds], dtype=np.float64))
             acc.dim('history', hist, len(ds))
             acc.transitions += 3
         got = codes(x)
@@ -139,6 +152,53 @@ def judge_array(acc, fmt, rounding, ds, part, shift_inv=True, hist=None):
                               % (fmt.dtype, rounding, ds[i][0], ds[i][1], got[i], m, p, g2[j]), {'part': part, 'rounding': rounding},
                               full={'part': part + '-shift', 'fmt': list(fmt), 'rounding': rounding, 'vals': [list(d) for d in ds], 'm': m})
                 break
+
+
+FXP_ROUTES = ('ctor', 'call', 'set_val', 'equal', 'setitem', 'like=', 'like()')
+
+
+def judge_fxp_source(acc, fmt, rounding, sfmt, cs, route, part):
+    """the value arrives as another fixed-point object (format sfmt, codes cs) and is stored into a wrap destination"""
+    case = {'part': part, 'fmt': list(fmt), 'rounding': rounding, 'src': list(sfmt), 'codes': list(cs), 'route': route, 'fxp_source': True}
+    ds = [(c, sfmt.n_frac) if sfmt.n_frac >= 0 else (c << -sfmt.n_frac, 0) for c in cs]
+    exp = [quantize(d, fmt, rounding, 'wrap') for d in ds]
+    acc.evaluations += len(cs)
+    acc.transitions += 1
+    acc.nontrivial += sum(1 for e in exp if e[1] or e[2])
+    acc.dim('fxp_source_route', route, len(cs))
+    try:
+        src = Fxp(np.array(cs, dtype=np.int64), sfmt.signed, sfmt.n_word, sfmt.n_frac, raw=True)
+        t = mk(np.zeros(len(cs)), fmt, rounding, 'wrap')
+        if route == 'ctor':
+            x = Fxp(src, fmt.signed, fmt.n_word, fmt.n_frac, rounding=rounding, overflow='wrap')
+        elif route == 'call':
+            x = t
+            x(src)
+        elif route == 'set_val':
+            x = t
+            x.set_val(src)
+        elif route == 'equal':
+            x = t.equal(src)
+        elif route == 'setitem':
+            x = t
+            x[:] = src
+        elif route == 'like=':
+            x = Fxp(src, like=t)
+        else:
+            x = src.like(t)
+        got, fl = codes(x), flags(x)
+    except Exception as e:
+        acc.violation('exception', case, '%s -> %s wrap by %s raised %r' % (sfmt.dtype, fmt.dtype, route, e), {'part': part, 'route': route, 'aspect': 'fxp_source'})
+        return
+    expc = [e[0] for e in exp]
+    ef = (any(e[1] for e in exp), any(e[2] for e in exp))
+    if got != expc or fl[:2] != ef:
+        i = [j for j in range(len(cs)) if got[j] != expc[j]]
+        i = i[0] if i else 0
+        acc.violation('code', case, 'fmt=%s rounding=%s wrap: %s code %d stored by %s as %d flags %s, expected %d %s'
+                      % (fmt.dtype, rounding, sfmt.dtype, cs[i], route, got[i], fl[:2], expc[i], ef), {'part': part, 'route': route, 'aspect': 'fxp_source'})
+    else:
+        acc.outcome('fxp_source_ok')
 
 
 def shifted_inputs(fmt, rounding, ds, m):
@@ -431,6 +491,12 @@ def run_shard(sh):
             ds = [qval(k, fmt) for k in al.quarter_sweep(fmt, 2)]
             for r in ROUNDINGS:
                 judge_array(acc, fmt, r, ds, 'a')
+            if nw <= 4 and -2 <= nf <= nw + 2:
+                # sources that are fixed-point objects: the other signedness, one more bit, a finer / coarser fraction
+                for sfmt in (Fmt(not sh['signed'], nw, nf), Fmt(sh['signed'], nw + 1, nf), Fmt(not sh['signed'], nw + 2, nf + 1), Fmt(True, nw + 2, nf - 1)):
+                    scs = list(range(sfmt.lo, sfmt.hi + 1))
+                    for route in FXP_ROUTES:
+                        judge_fxp_source(acc, fmt, ROUNDINGS[(nf + FXP_ROUTES.index(route)) % len(ROUNDINGS)], sfmt, scs, route, 'a')
             if nw <= 4:
                 for h in HISTS:
                     judge_array(acc, fmt, ROUNDINGS[(nf + HISTS.index(h)) % len(ROUNDINGS)], ds, 'a', False, h)
@@ -538,6 +604,8 @@ def replay(case):
                 acc.violation('code', case, 'stored %d flags %s expected %d' % (got, fl[:2], exp), {'part': 'd', 'route': case['route'], 'raw': raw})
         except Exception as e:
             acc.violation('exception', case, repr(e), {'part': 'd', 'route': case['route'], 'raw': raw})
+    elif case.get('fxp_source'):
+        judge_fxp_source(acc, fmt, case['rounding'], Fmt(*case['src']), case['codes'], case['route'], part)
     elif part == 'd-arr2':
         wide_2d(acc, fmt, case['codes'])
         return [v for v in acc.violations if v['case'].get('layout') == case['layout']]
